@@ -527,4 +527,184 @@ theorem index_zero (D : Dom) : D.index (AVal.zero D) = 0 := by
 end Dom
 
 
+namespace Dom
+open AVal
+
+/-! ### `AValue.__index__` (mixed radix) is the position in the enumeration -/
+
+/-- the product `∏ (mᵢ + 1)` as the model computes it -/
+def radix (m : List Nat) : Nat := (m.map (· + 1)).foldl (· * ·) 1
+
+theorem foldl_mul (l : List Nat) (a : Nat) : l.foldl (· * ·) a = a * l.foldl (· * ·) 1 := by
+  induction l generalizing a with
+  | nil => simp
+  | cons b l ih => simp only [List.foldl_cons]; rw [ih (a * b), ih (1 * b)]; ring
+
+theorem radix_cons (b : Nat) (m : List Nat) : radix (b :: m) = (b + 1) * radix m := by
+  simp only [radix, List.map_cons, List.foldl_cons]; rw [foldl_mul]; ring
+
+theorem length_boxVecs (m : List Nat) : (boxVecs m).length = radix m := by
+  induction m with
+  | nil => simp [boxVecs, radix]
+  | cons b m ih =>
+    rw [radix_cons]
+    simp only [boxVecs, List.length_flatMap, List.length_map, ih, List.map_const', List.length_range,
+      List.sum_replicate_nat]
+
+theorem idxOf_map_inj {α β} [BEq α] [LawfulBEq α] [BEq β] [LawfulBEq β] (f : α → β) (x : α) (l : List α)
+    (hf : ∀ y ∈ l, f y = f x → y = x) : (l.map f).idxOf (f x) = l.idxOf x := by
+  induction l with
+  | nil => simp
+  | cons a l ih =>
+    rw [List.map_cons, List.idxOf_cons, List.idxOf_cons]
+    by_cases h : a = x
+    · subst h; simp
+    · have : f a ≠ f x := fun hh => h (hf a (by simp) hh)
+      rw [beq_false_of_ne h, beq_false_of_ne this, ih (fun y hy => hf y (by simp [hy]))]
+
+theorem idxOf_blocks (L : List (List Nat)) (xs : List Nat) (hx : xs ∈ L) (n s v : Nat) (hs : s ≤ v) (hv : v < s + n) :
+    ((List.range' s n).flatMap (fun w => L.map (w :: ·))).idxOf (v :: xs) = (v - s) * L.length + L.idxOf xs := by
+  induction n generalizing s with
+  | zero => omega
+  | succ n ih =>
+    rw [List.range'_succ, List.flatMap_cons]
+    by_cases h : v = s
+    · subst h
+      rw [List.idxOf_append_of_mem (List.mem_map.mpr ⟨xs, hx, rfl⟩),
+        idxOf_map_inj (List.cons v) xs L (fun y _ hy => by simpa using hy)]
+      simp
+    · have hnm : (v :: xs) ∉ L.map (fun t => s :: t) := by
+        simp only [List.mem_map, not_exists, not_and]
+        intro y _ hy
+        simp at hy; omega
+      rw [List.idxOf_append_of_notMem hnm, ih (s + 1) (by omega) (by omega), List.length_map]
+      have : v - s = (v - (s + 1)) + 1 := by omega
+      rw [this]; ring
+
+theorem idxOf_boxVecs (m x : List Nat) (h : VLe x m) :
+    (boxVecs m).idxOf x = (List.zipWith (fun v (w : Nat) => v * w) x (boxIndex.weights m)).sum := by
+  induction h with
+  | nil => simp [boxVecs, boxIndex.weights]
+  | @cons v b xs ms hvb hrest ih =>
+    have hw : boxIndex.weights (b :: ms) = radix ms :: boxIndex.weights ms := rfl
+    rw [hw]
+    simp only [boxVecs, List.zipWith_cons_cons, List.sum_cons]
+    rw [List.range_eq_range', idxOf_blocks (boxVecs ms) xs ((mem_boxVecs ms xs).mpr hrest) (b + 1) 0 v (by omega) (by omega),
+      length_boxVecs, ih]
+    simp
+
+/-- V4, box part: the mixed-radix formula is the position in `domain()` -/
+theorem boxIndex_eq_index (m : List Nat) (v : AVal (box m)) : boxIndex m v.toList = (box m).index v := by
+  cases v with
+  | none =>
+    rw [index_none, domain_length]
+    show radix m = _
+    rw [← length_boxVecs]; simp [vecs]
+  | some x =>
+    show (List.zipWith (fun v (w : Nat) => v * w) x.1 (boxIndex.weights m)).sum = _
+    unfold index domain
+    have hmem : x.1 ∈ (box m).vecs := (mem_vecs (box m) x.1).mpr x.2
+    have hx : (some x : AVal (box m)) = clip (box m) x.1 := (clip_val x).symm
+    rw [List.idxOf_append_of_mem (List.mem_map.mpr ⟨x.1, hmem, clip_val x⟩), hx,
+      idxOf_map_inj (clip (box m)) x.1 _ (fun y hy h => clip_injOn (box m) y hy x.1 hmem h)]
+    exact (idxOf_boxVecs m x.1 ((ok_box_iff m x.1).mp x.2)).symm
+
+theorem domainsize_box (m : List Nat) : (box m).domain.length = (box m).domainsize := by
+  rw [domain_length]
+  show (boxVecs m).length + 1 = radix m + 1
+  rw [length_boxVecs]
+
+
+/-! ### `ATally.domainsize` (stars and bars) -/
+
+theorem choose_zero_right (n : Nat) : choose n 0 = 1 := by cases n <;> rfl
+theorem choose_succ_succ (n k : Nat) : choose (n + 1) (k + 1) = choose n k + choose n (k + 1) := rfl
+
+theorem choose_eq_zero (n k : Nat) (h : n < k) : choose n k = 0 := by
+  induction n generalizing k with
+  | zero => cases k with
+    | zero => omega
+    | succ k => rfl
+  | succ n ih => cases k with
+    | zero => omega
+    | succ k => rw [choose_succ_succ, ih k (by omega), ih (k + 1) (by omega)]
+
+theorem choose_self (n : Nat) : choose n n = 1 := by
+  induction n with
+  | zero => rfl
+  | succ n ih => rw [choose_succ_succ, ih, choose_eq_zero n (n + 1) (by omega)]
+
+theorem hockey (c M K : Nat) (h : K ≤ M) :
+    ((List.range (M + 1)).map (fun v => if v ≤ K then choose (K - v + c) c else 0)).sum = choose (K + c + 1) (c + 1) := by
+  induction M generalizing K with
+  | zero =>
+    have : K = 0 := by omega
+    subst this
+    simp [choose_self, choose_eq_zero]
+  | succ M ih =>
+    rw [List.range_succ_eq_map, List.map_cons, List.sum_cons, List.map_map]
+    cases K with
+    | zero =>
+      have : ((List.range (M + 1)).map ((fun v => if v ≤ 0 then choose (0 - v + c) c else 0) ∘ Nat.succ)).sum = 0 := by
+        apply List.sum_eq_zero
+        intro x hx
+        simp only [List.mem_map, Function.comp] at hx
+        obtain ⟨v, _, rfl⟩ := hx
+        simp
+      rw [this]
+      simp [choose_self]
+    | succ K =>
+      have : ((fun v => if v ≤ K + 1 then choose (K + 1 - v + c) c else 0) ∘ Nat.succ) =
+          fun v => if v ≤ K then choose (K - v + c) c else 0 := by
+        funext v
+        simp only [Function.comp, Nat.succ_eq_add_one, Nat.add_le_add_iff_right, Nat.add_sub_add_right]
+      rw [this, ih K (by omega)]
+      simp only [Nat.zero_le, if_true, Nat.sub_zero]
+      rw [show K + 1 + c + 1 = (K + c + 1) + 1 from by omega, choose_succ_succ (K + c + 1) c,
+        show K + 1 + c = K + c + 1 from by omega]
+
+theorem count_le_sum (c M K : Nat) (h : K ≤ M) :
+    ((boxVecs (List.replicate c M)).filter (fun x => decide (x.sum ≤ K))).length = choose (K + c) c := by
+  induction c generalizing K with
+  | zero => simp [boxVecs, choose_zero_right]
+  | succ c ih =>
+    rw [List.replicate_succ]
+    simp only [boxVecs, List.filter_flatMap, List.length_flatMap, List.map_map]
+    rw [show K + (c + 1) = K + c + 1 from rfl, ← hockey c M K h]
+    congr 1
+    apply List.map_congr_left
+    intro v hv
+    simp only [Function.comp, List.filter_map, List.length_map]
+    by_cases hvK : v ≤ K
+    · rw [if_pos hvK, ← ih (K - v) (by omega)]
+      congr 1
+      apply List.filter_congr
+      intro x _
+      show decide ((v :: x).sum ≤ K) = decide (x.sum ≤ K - v)
+      have : (v :: x).sum ≤ K ↔ x.sum ≤ K - v := by rw [List.sum_cons]; omega
+      exact decide_eq_decide.mpr this
+    · rw [if_neg hvK]
+      rw [List.length_eq_zero_iff, List.filter_eq_nil_iff]
+      intro x _
+      show ¬ decide ((v :: x).sum ≤ K) = true
+      have : ¬ (v :: x).sum ≤ K := by rw [List.sum_cons]; omega
+      exact fun hh => this (of_decide_eq_true hh)
+
+theorem length_singles (K c : Nat) : (singles K c).length = choose (K + c) c := count_le_sum c K K (le_refl K)
+
+theorem domainsize_tally (n K c : Nat) : (tally n K c).domain.length = (tally n K c).domainsize := by
+  rw [domain_length]
+  show _ + 1 = (n + 1) * (choose (K + c) c) ^ 2 + 1
+  congr 1
+  simp only [vecs, List.length_flatMap, List.length_map, List.map_const', List.length_range, List.sum_replicate_nat,
+    length_singles]
+  ring
+
+theorem domain_length_eq (D : Dom) : D.domain.length = D.domainsize := by
+  cases D with
+  | box m => exact domainsize_box m
+  | tally n K c => exact domainsize_tally n K c
+
+end Dom
+
 end Ds
